@@ -110,15 +110,117 @@ impl<const N: usize> Seek for ArrFile<N> {
     }
 }
 
+/// Same as ArrFile, but the bytes live in an array owned by the harness (on
+/// its stack) and are reached through a raw pointer.  Used wherever the
+/// MiniAllocator sits behind an Arc: a 7 KB array inside a heap object makes
+/// every access a byte_extract on a dynamic object, which CBMC does not
+/// constant-propagate; a stack array is field-sensitive.
+pub struct PtrFile<const N: usize> {
+    pub p: *mut [u8; N],
+    pub len: usize,
+    pub pos: usize,
+    pub writes: usize,
+    pub flushes: usize,
+}
+
+impl<const N: usize> PtrFile<N> {
+    /// `buf` must outlive the file and must not be moved afterwards.
+    pub fn over(buf: &mut [u8; N], len: usize) -> Self {
+        PtrFile { p: buf as *mut [u8; N], len, pos: 0, writes: 0, flushes: 0 }
+    }
+    pub fn d(&self) -> &[u8; N] {
+        unsafe { &*self.p }
+    }
+    pub fn d_mut(&mut self) -> &mut [u8; N] {
+        unsafe { &mut *self.p }
+    }
+}
+
+impl<const N: usize> Read for PtrFile<N> {
+    fn read(&mut self, buf: &mut [u8]) -> io::Result<usize> {
+        let avail = if self.pos < self.len { self.len - self.pos } else { 0 };
+        let n = if buf.len() < avail { buf.len() } else { avail };
+        if n > 0 {
+            let pos = self.pos;
+            let d = self.d();
+            if n <= SMALL {
+                let mut i = 0;
+                while i < n {
+                    buf[i] = d[pos + i];
+                    i += 1;
+                }
+            } else {
+                buf[..n].copy_from_slice(&d[pos..pos + n]);
+            }
+            self.pos += n;
+        }
+        Ok(n)
+    }
+}
+
+impl<const N: usize> Write for PtrFile<N> {
+    fn write(&mut self, buf: &[u8]) -> io::Result<usize> {
+        let n = buf.len();
+        kani::assume(self.pos <= self.len);
+        kani::assume(self.pos + n <= N);
+        if n > 0 {
+            let pos = self.pos;
+            let d = self.d_mut();
+            if n <= SMALL {
+                let mut i = 0;
+                while i < n {
+                    d[pos + i] = buf[i];
+                    i += 1;
+                }
+            } else {
+                d[pos..pos + n].copy_from_slice(buf);
+            }
+            self.pos += n;
+            if self.pos > self.len {
+                self.len = self.pos;
+            }
+        }
+        self.writes += 1;
+        Ok(n)
+    }
+    fn flush(&mut self) -> io::Result<()> {
+        self.flushes += 1;
+        Ok(())
+    }
+}
+
+impl<const N: usize> Seek for PtrFile<N> {
+    fn seek(&mut self, pos: SeekFrom) -> io::Result<u64> {
+        let new = match pos {
+            SeekFrom::Start(n) => {
+                kani::assume(n <= N as u64);
+                n as usize
+            }
+            SeekFrom::End(d) => {
+                let t = self.len as i64 + d;
+                kani::assume(t >= 0 && t <= N as i64);
+                t as usize
+            }
+            SeekFrom::Current(d) => {
+                let t = self.pos as i64 + d;
+                kani::assume(t >= 0 && t <= N as i64);
+                t as usize
+            }
+        };
+        self.pos = new;
+        Ok(new as u64)
+    }
+}
+
 /// A backing store whose transfers are split arbitrarily: each read/write
 /// moves a solver-chosen count 1..=n, or reports `Interrupted`, within a
 /// budget of short events.
-pub struct ChunkyFile<const N: usize> {
-    pub f: ArrFile<N>,
+pub struct ChunkyFile<T> {
+    pub f: T,
     pub budget: u32,
 }
 
-impl<const N: usize> ChunkyFile<N> {
+impl<T> ChunkyFile<T> {
     fn chunk(&mut self, n: usize) -> Option<usize> {
         if n <= 1 || self.budget == 0 {
             return Some(n);
@@ -137,7 +239,7 @@ impl<const N: usize> ChunkyFile<N> {
     }
 }
 
-impl<const N: usize> Read for ChunkyFile<N> {
+impl<T: Read> Read for ChunkyFile<T> {
     fn read(&mut self, buf: &mut [u8]) -> io::Result<usize> {
         match self.chunk(buf.len()) {
             None => Err(io::Error::from(io::ErrorKind::Interrupted)),
@@ -145,7 +247,7 @@ impl<const N: usize> Read for ChunkyFile<N> {
         }
     }
 }
-impl<const N: usize> Write for ChunkyFile<N> {
+impl<T: Write> Write for ChunkyFile<T> {
     fn write(&mut self, buf: &[u8]) -> io::Result<usize> {
         match self.chunk(buf.len()) {
             None => Err(io::Error::from(io::ErrorKind::Interrupted)),
@@ -156,7 +258,7 @@ impl<const N: usize> Write for ChunkyFile<N> {
         self.f.flush()
     }
 }
-impl<const N: usize> Seek for ChunkyFile<N> {
+impl<T: Seek> Seek for ChunkyFile<T> {
     fn seek(&mut self, pos: SeekFrom) -> io::Result<u64> {
         self.f.seek(pos)
     }
@@ -165,8 +267,8 @@ impl<const N: usize> Seek for ChunkyFile<N> {
 /// A backing store that may fail: each read/write/seek/flush consults a
 /// solver-chosen flag, within a budget of faults.  `log` counts faults
 /// actually injected.
-pub struct FaultyFile<const N: usize> {
-    pub f: ArrFile<N>,
+pub struct FaultyFile<T> {
+    pub f: T,
     pub budget: u32,
     pub injected: u32,
     pub fail_reads: bool,
@@ -175,7 +277,7 @@ pub struct FaultyFile<const N: usize> {
     pub fail_flush: bool,
 }
 
-impl<const N: usize> FaultyFile<N> {
+impl<T> FaultyFile<T> {
     fn fault(&mut self, enabled: bool) -> bool {
         if !enabled || self.budget == 0 {
             return false;
@@ -188,7 +290,7 @@ impl<const N: usize> FaultyFile<N> {
         b
     }
 }
-impl<const N: usize> Read for FaultyFile<N> {
+impl<T: Read> Read for FaultyFile<T> {
     fn read(&mut self, buf: &mut [u8]) -> io::Result<usize> {
         if self.fault(self.fail_reads) {
             return Err(io::Error::from(io::ErrorKind::Other));
@@ -196,7 +298,7 @@ impl<const N: usize> Read for FaultyFile<N> {
         self.f.read(buf)
     }
 }
-impl<const N: usize> Write for FaultyFile<N> {
+impl<T: Write> Write for FaultyFile<T> {
     fn write(&mut self, buf: &[u8]) -> io::Result<usize> {
         if self.fault(self.fail_writes) {
             return Err(io::Error::from(io::ErrorKind::Other));
@@ -210,7 +312,7 @@ impl<const N: usize> Write for FaultyFile<N> {
         self.f.flush()
     }
 }
-impl<const N: usize> Seek for FaultyFile<N> {
+impl<T: Seek> Seek for FaultyFile<T> {
     fn seek(&mut self, pos: SeekFrom) -> io::Result<u64> {
         if self.fault(self.fail_seeks) {
             return Err(io::Error::from(io::ErrorKind::Other));
